@@ -173,8 +173,14 @@ def o9(tier):
     return _shared(lambda: C01.o4(tier), 'O9', 'shared with C01-O4: the epoch snapshot records the wrapper id and created_at of the commit being applied (also for the own commit merged from its echo), so its re-delivery is not a better candidate')
 
 
+def o10(tier):
+    """the stored message carries the message's own epoch, the same epoch as its dedup record: a rollback that invalidates one invalidates the other, and a re-delivery stays refused"""
+    from props import C02
+    return _shared(lambda: C02.o2(tier), 'O10', 'shared with C02-O2: process_application_message stores the message and its processed record under the SAME epoch (the one handed in by the dispatcher), so after a rollback a re-delivered message cannot pass the gate and turn its invalidated copy valid')
+
+
 def run(tier, seed, only=None):
-    obs = [('O1', o1), ('O2', o2), ('O3', o3), ('O4', o4), ('O5', o5), ('O6', o6), ('O7', o7), ('O8', o8), ('O9', o9)]
+    obs = [('O1', o1), ('O2', o2), ('O3', o3), ('O4', o4), ('O5', o5), ('O6', o6), ('O7', o7), ('O8', o8), ('O9', o9), ('O10', o10)]
     out = []
     for k, f in obs:
         if only and k not in only:
